@@ -771,7 +771,66 @@ def r11_fold_copies_target_state(ctx, rule_id='R-C03.11'):
                 cname, ', '.join(sorted(need))), n)
 
 
+def r12_regroup_respects_model_barriers(ctx, rule_id='R-C03.12'):
+    """The optimiser regroups the surviving mutations per model (so that the
+    SQL generator can merge the operations of one table).  That permutation
+    is only harmless inside a run without model-level mutations:
+    RenameModel / DeleteModel change what a model name refers to, and a
+    RenameModel sorts under its *old* name.  Regrouping the whole batch by
+    sorted model name moves `AddField('Aa', ...)` in front of
+    `RenameModel('B', 'Aa')`, and the optimised run fails (or addresses the
+    wrong model) where one-at-a-time application succeeds."""
+    ctx.rule(rule_id)
+    p = ctx.program
+    f = p.func(AM, 'AppMutator._process_mutation_batch')
+    from ..util import unit
+    groups = 0
+    for fn in unit(ctx, f):
+        g = ctx.cfg(fn)
+        barrier = [t for t in g.nodes if t.kind in ('test', 'operand') and
+                   isinstance(t.ast, ast.Call) and
+                   call_name(t.ast) == 'isinstance' and
+                   any(isinstance(x, ast.Name) and
+                       x.id in ('RenameModel', 'DeleteModel')
+                       for x in ast.walk(t.ast.args[1]))
+                   ] if True else []
+        for n in g.nodes:
+            hit = None
+            for c in n.calls():
+                if call_name(c) in ('append', 'setdefault') and \
+                        'mutations_by_model' in unparse(c.func):
+                    hit = c
+            a = n.ast
+            if hit is None and n.kind == 'stmt' and isinstance(
+                    a, (ast.Assign, ast.AugAssign)) and \
+                    'mutations_by_model[' in unparse(
+                        a.targets[0] if isinstance(a, ast.Assign)
+                        else a.target) and 'model_name' in unparse(a):
+                hit = a
+            if hit is None or 'mutation' not in unparse(hit):
+                continue
+            if isinstance(hit, ast.Call) and not any(
+                    'mutation' in unparse(x) for x in hit.args):
+                continue
+            groups += 1
+            if any(g.guarded_by(n, t, 'F') or g.guarded_by(n, t, 'T')
+                   for t in barrier):
+                ctx.ok(fn, 'per-model regrouping is segmented at '
+                       'RenameModel / DeleteModel', hit)
+            else:
+                ctx.finding(fn, hit, 'the whole batch is regrouped by model '
+                            'name with no barrier at RenameModel / '
+                            'DeleteModel: a mutation addressed to a model\'s '
+                            'new name can be moved in front of the rename '
+                            '(whenever the new name sorts first), so a '
+                            'sequence that is valid one at a time fails or '
+                            'changes meaning in the optimised run',
+                            key='regroup-across-model-mutations')
+    ctx.floor('per-model grouping stores in the optimiser', groups, 1)
+
+
 def run(ctx):
+    r12_regroup_respects_model_barriers(ctx)
     r11_fold_copies_target_state(ctx)
     r9_merged_index_state(ctx)
     r8_initial_sentinel(ctx)
